@@ -569,14 +569,15 @@ class Oracle:
             pre[i] = {X: sol[self.ix[X]] for X in N if not self.isz(sol[self.ix[X]])}
         return pre[0]
 
-    def weighted_length(self):
-        """r_X = sum over derivation trees of X of weight * (number of terminals); field only."""
+    def weighted_length(self, counts=None):
+        """r_X = sum over derivation trees t of X of weight(t) * sum over rule uses in t of count(rule);
+        default count = number of terminals in the rule body (so r is the weighted yield length). Field only."""
         Z = self.Z
         sysr = {("r", X): [] for X in self.N}
         known = {("z", X): Z[X] for X in self.N}
-        for w, h, b in self.rules:
+        for idx, (w, h, b) in enumerate(self.rules):
             nts = [y for y in b if y not in self.V]
-            nterm = len(b) - len(nts)
+            nterm = (len(b) - len(nts)) if counts is None else counts[idx]
             if nterm:
                 sysr[("r", h)].append((w * nterm, tuple(("z", y) for y in nts)))
             for j, y in enumerate(nts):
